@@ -116,7 +116,7 @@ def build_query(n: int, pat: dict) -> tuple[str, list[str], list[tuple]]:
 def _alphabet(n: int) -> list[list]:
     ks = sorted({1, 2, 3, max(n, 1), n + 1})
     ops: list[list] = [["one"], ["all"], ["pandas"], ["rowcount"]]
-    ops += [["many", k] for k in ks] + [["many", 0]]  # fetchmany(0): no rows, the position stays
+    ops += [["many", k] for k in ks] + [["many", 0], ["many", -1]]  # fetchmany(0): no rows, the position stays; -1: refused
     ops += [["as_many", a] for a in (1, 2, n + 1)]
     ops += [["set_as", 2], ["set_as", 3], ["many_default"], ["many_default"]]
     return ops
@@ -405,6 +405,18 @@ def run_case(case: dict, env: core.Env) -> None:
             if not exp_l and got is not None:
                 pass
             pos += 1 if exp_l else 0
+        elif kind == "many" and op[1] < 0:
+            # a negative size is refused (as by the connector: ProgrammingError) and moves nothing
+            env.count("cmp_negative_size")
+            try:
+                bad_rows = cur.fetchmany(op[1])
+                env.witness("C05/negative-size/accepted", f"step {step} fetchmany({op[1]}) returned {str(bad_rows)[:120]}; {sql}")
+                return
+            except Exception as e:  # noqa: BLE001
+                if core.exc_kind(e) != "snowflake":
+                    env.witness(f"C05/negative-size/not-a-connector-error/{type(e).__name__}", f"step {step} fetchmany({op[1]}): {e}")
+                    return
+            continue
         elif kind == "many":
             got_l = cur.fetchmany(op[1])
             exp_l = rows[pos:pos + op[1]]
